@@ -76,6 +76,8 @@ def make_config(rng, fn=None, big=False, coefs=None, maxvars=6):
         kw["schedule"] = [rng.choice([3, 1, 0.2, 0, 1e-3, 50]) for _ in range(rng.randint(1, 6))]
         if rng.random() < 0.3:
             kw["schedule"] = tuple(kw["schedule"])
+        if rng.random() < 0.15:
+            kw["temperature_range"] = (2, 1)       # documented: ignored (with a warning) when an explicit schedule is given
     elif sch == "list0":
         kw["schedule"] = [0] * rng.randint(1, 3)
     elif sch == "empty":
